@@ -297,6 +297,15 @@ impl AddressStore {
     }
 }
 
+// Verification hooks (runtime-monitoring harness only).
+#[cfg(feature = "verif")]
+impl AddressRecord {
+    /// Get address score (`score()` is test-only).
+    pub fn verif_score(&self) -> i32 {
+        self.score
+    }
+}
+
 #[cfg(test)]
 mod tests {
     use std::{
